@@ -83,6 +83,10 @@ var vhSchemas = []vhSchemaCase{
 	{names: []string{"a", "b"}, sql: "CREATE TABLE \"t\" (a TEXT UNIQUE, b integer, primary key(b DESC))", ncols: 2, rowidCol: 1},
 	// ordinary columns that happen to be called like the rowid: the column wins
 	{names: []string{"oid", "b", "_rowid_"}, sql: "CREATE TABLE t (oid, b, _ROWID_ DEFAULT 7)", ncols: 3, rowidCol: -1, defaults: []int64{0, 0, 7}, hasDef: []bool{false, false, true}},
+	// primary keys that are NOT rowid aliases: composite key starting with an
+	// INTEGER column; single-column key whose type is INT, not INTEGER
+	{names: []string{"a", "b", "c"}, sql: "CREATE TABLE t (a INTEGER, b, c, PRIMARY KEY (a, b))", ncols: 3, rowidCol: -1},
+	{names: []string{"a", "b", "c"}, sql: "CREATE TABLE t (a INT PRIMARY KEY, b, c)", ncols: 3, rowidCol: -1},
 }
 
 var vhColumnSets = [][]string{
@@ -94,11 +98,11 @@ var vhColumnSets = [][]string{
 	{"id", "c"},
 }
 
-//verif:shards 4
-//verif:bounds 4 table definitions (plain, INTEGER PRIMARY KEY alias with DEFAULT, table-constraint rowid alias, ordinary columns named oid/_rowid_) x 6 column lists (permutations, duplicates, rowid/oid/_rowid_, case variants, unknown names) x page size 512 / 4096 (thorough: + 1024) x trees of 1 leaf or interior+2 leaves with 1..2 rows per leaf; row values and rowids any int64; first-leaf rows optionally one column short (ALTER TABLE ADD COLUMN)
+//verif:shards 6
+//verif:bounds 6 table definitions (plain, INTEGER PRIMARY KEY alias with DEFAULT, table-constraint rowid alias, ordinary columns named oid/_rowid_, composite primary key starting with an INTEGER column, INT PRIMARY KEY — the last two are not rowid aliases) x 6 column lists (permutations, duplicates, rowid/oid/_rowid_, case variants, unknown names) x page size 512 / 4096 (thorough: + 1024) x trees of 1 leaf or interior+2 leaves with 1..2 rows per leaf; row values and rowids any int64; first-leaf rows optionally one column short (ALTER TABLE ADD COLUMN)
 //verif:prop C01,C20
 func VH_C01_select() {
-	sc := vhSchemas[sdb.VerifShard(4)]
+	sc := vhSchemas[sdb.VerifShard(6)]
 	cols := vhColumnSets[sdb.VerifChoice(len(vhColumnSets))]
 	leaves := 1 + sdb.VerifChoice(2)
 	per := 1 + sdb.VerifChoice(2)
